@@ -438,6 +438,21 @@ def _strip_omit(t):
 
 
 def _impl_eq_hash(inp):
+    if inp.get("pa") or inp.get("pb"):
+        # follow-up 3: both objects through a construction path; a path that does not reproduce the content (the
+        # library's validation changed it) is not this property's business: the case is skipped, and tallied
+        objs = []
+        for side, rk in (("a", "pa"), ("b", "pb")):
+            o = obtain(inp[side], inp.get(rk) or {})
+            if _strip_omit(walk(o)) != _strip_omit(inp[side]):
+                return {"skip": f"path {jkey(inp.get(rk))} does not reproduce the content of {side}"}
+            objs.append(o)
+        a, b = objs
+        r = (a == b)
+        if (b == a) != r:
+            raise AssertionError("__eq__ is not symmetric")
+        return {"eq": bool(r), "hash_eq": hash(a) == hash(b), **_membership(a, b), **_encoder_follows(a, b),
+                "extras_order": [_extras_items(a), _extras_items(b)]}
     if inp.get("how"):
         a = _derive(inp["a"], inp.get("origin"), inp["how"])
         if _strip_omit(walk(a)) != _strip_omit(inp["a"]):
@@ -452,7 +467,7 @@ def _impl_eq_hash(inp):
     r = (a == b)
     if (b == a) != r:
         raise AssertionError("__eq__ is not symmetric")
-    return {"eq": bool(r), "hash_eq": hash(a) == hash(b), **_membership(a, b)}
+    return {"eq": bool(r), "hash_eq": hash(a) == hash(b), **_membership(a, b), **_encoder_follows(a, b)}
 
 
 def _membership(a, b):
@@ -462,6 +477,9 @@ def _membership(a, b):
 
 
 def _cmp_eq_hash(inp, io, mo):
+    if "skip" in io:
+        _SKIPPED[0] += 1
+        return None
     if "raise" in io:
         return "constructing / comparing the objects raised"
     if not mo["has_key"]:
@@ -471,10 +489,15 @@ def _cmp_eq_hash(inp, io, mo):
     return None
 
 
+_SKIPPED = [0]
+
+
 def _holds_eq_hash(ctx, inp, io):
     if not isinstance(io, dict) or "eq" not in io:
         return None
     how = f" (a obtained by {inp['how']} from an object hashed before)" if inp.get("how") else ""
+    if inp.get("pa") or inp.get("pb"):
+        how = f" (a via {jkey(inp.get('pa') or {})}, b via {jkey(inp.get('pb') or {})})"
     if io["eq"] and not io.get("hash_eq"):
         return "a == b but hash(a) != hash(b)" + how
     if "in_set" in io:
@@ -484,7 +507,190 @@ def _holds_eq_hash(ctx, inp, io):
             return "a == b but {a, b} has two members" + how
         if not io["eq"] and (io["in_set"] or io["dict_get"] or io["set_size"] != 2):
             return "a != b but b is found in {a}" + how
+    for k, what in (("encodes", "encoder.encode"), ("classifies", "classification_encoding"),
+                    ("multilabel", "multilabel_encoding"), ("prediction", "prediction_encoding")):
+        if k in io and io[k] != io["eq"]:
+            return (f"{what} over the vocabulary [other, a] " + ("does not treat b as a although a == b" if io["eq"]
+                    else "treats b as a although a != b") + how)
     return None
+
+# ------------------------------------------------------------------ follow-up 3: construction paths
+# The same content reached in every legitimate way (HISTORIES.md section 2): constructor with the keywords in
+# another order, `model_validate` of a dict (nested objects as objects / as plain dicts), `model_validate_json`
+# of a document written by hand under the validation aliases, the extras of a term supplied in another order
+# (keyword order, dict order, JSON key order, `model_copy(update=...)` order), optional fields passed
+# explicitly as None instead of omitted, copies of an object that was hashed before.
+VIA_FRESH = ["init", "init_rev", "validate", "validate_plain", "json", "explicit_none", "extras_update"]
+VIA_COPY = ["copy", "deepcopy", "pickle", "model_copy", "model_copy_deep"]
+VIAS = VIA_FRESH + VIA_COPY
+
+
+def _perm(items, k):
+    """the k-th permutation of a short list (k = 0: as given)"""
+    items = list(items)
+    if k == 0 or len(items) < 2:
+        return items
+    perms = list(itertools.islice(itertools.permutations(items), 0, 720))
+    return list(perms[k % len(perms)])
+
+
+def _as_none(explicit_none, field):
+    return explicit_none is True or (isinstance(explicit_none, (list, tuple)) and field in explicit_none)
+
+
+def _plain(tree, k=0, explicit_none=False):
+    """value tree -> plain Python data (dicts under the validation aliases, lists, numbers, strings): what a
+    document handed to model_validate / json.dumps looks like"""
+    from soundevent import data
+    if tree is None or isinstance(tree, bool):
+        return tree
+    if "s" in tree:
+        return tree["s"]
+    if "q" in tree:
+        if tree.get("neg0"):
+            return -0.0
+        f = Fraction(tree["q"])
+        return int(f) if f.denominator == 1 else float(f)
+    if "l" in tree:
+        return [_plain(y, k, explicit_none) for y in tree["l"]]
+    if "t" in tree:
+        return [_plain(y, k, explicit_none) for y in tree["t"]]
+    cls = getattr(data, tree["o"])
+    fields, extras = [], []
+    for n, v in zip(tree["n"], tree["v"]):
+        if n in tree.get("omit", ()):
+            if _as_none(explicit_none, n) and v is None and cls.model_fields[n].default is None:
+                fields.append((cls.model_fields[n].alias or n, None))
+            continue
+        if n.startswith("+"):
+            extras.append((n[1:], _plain(v, k, explicit_none)))
+        else:
+            fields.append((cls.model_fields[n].alias or n, _plain(v, k, explicit_none)))
+    return dict(fields + _perm(extras, k))
+
+
+def _kwargs(tree, k=0, rev=False, explicit_none=False, extras=True):
+    """constructor keywords for the object a tree describes (nested models as real objects)"""
+    from soundevent import data
+    cls = getattr(data, tree["o"])
+    fields, ex = [], []
+    for n, v in zip(tree["n"], tree["v"]):
+        if n in tree.get("omit", ()):
+            if _as_none(explicit_none, n) and v is None and cls.model_fields[n].default is None:
+                fields.append((cls.model_fields[n].alias or n, None))
+            continue
+        if n.startswith("+"):
+            ex.append((n[1:], _via_value(v, k, rev, explicit_none)))
+        else:
+            fields.append((cls.model_fields[n].alias or n, _via_value(v, k, rev, explicit_none)))
+    if rev:
+        fields.reverse()
+    return cls, fields, (_perm(ex, k) if extras else []), ex
+
+
+def _via_value(tree, k, rev, explicit_none):
+    if tree is None or isinstance(tree, bool) or "s" in tree or "q" in tree:
+        return build(tree)
+    if "l" in tree:
+        return [_via_value(y, k, rev, explicit_none) for y in tree["l"]]
+    if "t" in tree:
+        return tuple(_via_value(y, k, rev, explicit_none) for y in tree["t"])
+    cls, fields, ex, _ = _kwargs(tree, k, rev, explicit_none)
+    return cls(**dict(fields + ex))
+
+
+def _fresh_via(tree, via, k=0, none_fields=None):
+    """a new object with the content of `tree`, constructed in the way `via` names; k = order of the extras;
+    none_fields = the omitted optional fields passed explicitly as None (all of them for via = explicit_none)"""
+    import json
+    from soundevent import data
+    cls = getattr(data, tree["o"])
+    if none_fields and via in ("init", "validate_plain", "json"):
+        if via == "init":
+            c, fields, ex, _ = _kwargs(tree, k, explicit_none=list(none_fields))
+            return c(**dict(fields + ex))
+        doc = _plain(tree, k, explicit_none=list(none_fields))
+        return cls.model_validate(doc) if via == "validate_plain" else cls.model_validate_json(json.dumps(doc))
+    if via == "init":
+        c, fields, ex, _ = _kwargs(tree, k)
+        return c(**dict(fields + ex))
+    if via == "init_rev":                    # keywords in reverse order, extras first
+        c, fields, ex, _ = _kwargs(tree, k, rev=True)
+        return c(**dict(ex + fields))
+    if via == "validate":                    # a dict holding real nested objects
+        c, fields, ex, _ = _kwargs(tree, k)
+        return c.model_validate(dict(fields + ex))
+    if via == "validate_plain":              # a dict of plain data (what a parsed document looks like)
+        return cls.model_validate(_plain(tree, k))
+    if via == "json":
+        return cls.model_validate_json(json.dumps(_plain(tree, k)))
+    if via == "explicit_none":               # optional fields that were left out are passed as None
+        c, fields, ex, _ = _kwargs(tree, k, explicit_none=True)
+        return c(**dict(fields + ex))
+    if via == "extras_update":               # the extras arrive later, through model_copy(update=...)
+        c, fields, ex, _ = _kwargs(tree, k, extras=False)
+        _, _, exs, _ = _kwargs(tree, k)
+        o = c(**dict(fields))
+        hash(o) if c.__hash__ is not None else None
+        return o.model_copy(update=dict(exs)) if exs else o
+    raise ValueError(via)
+
+
+def obtain(tree, recipe):
+    """the object described by `tree`, obtained as `recipe` says: {"via": one of VIAS, "k": order of the extras,
+    "from": the fresh path a copy starts from}.  Copies are taken from an object that was hashed before."""
+    import copy
+    import pickle
+    via = recipe.get("via", "init")
+    k = recipe.get("k", 0)
+    if via in VIA_FRESH:
+        return _fresh_via(tree, via, k, recipe.get("none"))
+    src = _fresh_via(tree, recipe.get("from", "init"), k)
+    if type(src).__hash__ is not None:
+        hash(src)
+    if via == "copy":
+        return copy.copy(src)
+    if via == "deepcopy":
+        return copy.deepcopy(src)
+    if via == "pickle":
+        return pickle.loads(pickle.dumps(src))
+    if via == "model_copy":
+        return src.model_copy()
+    if via == "model_copy_deep":
+        return src.model_copy(deep=True)
+    raise ValueError(via)
+
+
+def _extras_items(x):
+    """the extras of every term inside an object, in insertion order (for the evidence / replays only)"""
+    from pydantic import BaseModel
+    out = []
+    if isinstance(x, BaseModel):
+        if x.__pydantic_extra__:
+            out.append(list(x.__pydantic_extra__))
+        for v in x.__dict__.values():
+            out.extend(_extras_items(v))
+    elif isinstance(x, (list, tuple)):
+        for v in x:
+            out.extend(_extras_items(v))
+    return out
+
+
+def _encoder_follows(a, b):
+    """for tags (and terms, wrapped into tags): the encoder of the vocabulary [a] and the three encodings
+    treat b as that vocabulary tag iff ... (judged by the caller against a == b)"""
+    from soundevent import data
+    from soundevent.evaluation import encoding
+    if type(a).__name__ == "Term" and type(b).__name__ == "Term":
+        a, b = data.Tag(term=a, value="v"), data.Tag(term=b, value="v")
+    if type(a).__name__ != "Tag" or type(b).__name__ != "Tag":
+        return {}
+    other = data.Tag(term=data.Term(label="call", name="custom:callType", definition="c"), value="social")
+    enc = encoding.create_tag_encoder([other, a])
+    ml = encoding.multilabel_encoding([b], enc)
+    pr = encoding.prediction_encoding([data.PredictedTag(tag=b, score=0.5)], enc)
+    return {"encodes": enc.encode(b) == 1, "classifies": encoding.classification_encoding([other, b][::-1], enc) == 1,
+            "multilabel": [int(x) for x in ml] == [0, 1], "prediction": [float(x) for x in pr] == [0.0, 0.5]}
 
 
 # ------------------------------------------------------------------ review additions: implementations
@@ -1144,6 +1350,173 @@ def _eq_hash_cases(ctx):
     return cases
 
 
+
+# ---- follow-up 3: the same content through every construction path; neighbours through random paths ----
+XTRA3 = {"+note": "n", "+other": "o", "+status": "s"}
+XTRA2 = {"+note": "n", "+other": "o"}
+
+
+def _path_contents():
+    """class -> [(label, tree, has_extras)]: the base object, and one whose term(s) carry >= 2 extra attributes"""
+    from soundevent import data
+    B = _bases()
+    tx = lambda X: _construct("Term", {**B["Term"][0](), **X})  # noqa: E731
+    tag = lambda X, v="dog": data.Tag(term=tx(X), value=v)  # noqa: E731
+    feat = lambda X, v=1.0: data.Feature(term=tx(X), value=v)  # noqa: E731
+    ptag = lambda X: data.PredictedTag(tag=tag(X), score=0.5)  # noqa: E731
+    out = {c: [("base", walk(_construct(c, B[c][0]())), False)] for c in B}
+    out["Term"] += [("x2", walk(tx(XTRA2)), True), ("x3", walk(tx(XTRA3)), True)]
+    out["Tag"].append(("x3", walk(tag(XTRA3)), True))
+    out["Feature"].append(("x3", walk(feat(XTRA3)), True))
+    for c, f, v in (("SoundEvent", "features", lambda: [feat(XTRA3)]),
+                    ("SoundEventAnnotation", "tags", lambda: [tag(XTRA3), tag(XTRA2, "cat")]),
+                    ("SoundEventPrediction", "tags", lambda: [ptag(XTRA3)]),
+                    ("ClipPrediction", "tags", lambda: [ptag(XTRA2)])):
+        kw = B[c][0]()
+        kw[f] = v()
+        out[c].append(("x3", walk(_construct(c, kw)), True))
+    return out
+
+
+def _recipes(has_extras, wide):
+    ks = ([0, 1, 2, 3, 4, 5] if wide else [0, 3, 4]) if has_extras else [0]
+    rs = [{"via": v, "k": k} for v in VIA_FRESH for k in ks]
+    rs += [{"via": v, "k": ks[-1], "from": f} for v, f in zip(VIA_COPY, ["init", "json", "validate_plain", "init_rev", "json"])]
+    return rs
+
+
+def _path_cases(ctx):
+    rng = ctx.rng
+    cases = []
+    contents = _path_contents()
+    for c, items in contents.items():
+        small = c in ("Term", "Tag", "Feature")
+        for label, tree, has_x in items:
+            rs = _recipes(has_x, wide=(c == "Term" and label == "x3"))
+            if small:
+                pairs = [(ra, rb) for ra in rs for rb in rs]
+            else:
+                pairs = [(r, rs[0]) for r in rs] + [(rs[0], r) for r in rs] + [tuple(rng.sample(rs, 2)) for _ in range(30)]
+            for ra, rb in pairs:
+                cases.append({"a": tree, "b": tree, "pa": ra, "pb": rb})
+            ctx.tally(f"eq_hash paths {c}.{label}", len(pairs))
+    # one optional field at a time passed explicitly as None (C19-5), through three ways of construction
+    for c, items in contents.items():
+        tree = items[0][1]
+        for f in tree.get("omit", []):
+            for via in ("init", "validate_plain", "json"):
+                cases.append({"a": tree, "b": tree, "pa": {"via": via, "none": [f]}, "pb": {"via": "init"}})
+                cases.append({"a": tree, "b": tree, "pa": {"via": "init"}, "pb": {"via": via, "none": [f]}})
+                ctx.tally("eq_hash explicit None " + c)
+    # neighbours (one-field variants of the pools) through random paths: == must stay false / true as modelled
+    B = _bases()
+    for c in B:
+        pool = _class_pool(c, *B[c])
+        n = ctx.budget(260, 2600) if c == "Term" else ctx.budget(90, 900)
+        for _ in range(n):
+            (la, a), (lb, b) = rng.choice(pool), rng.choice(pool)
+            ra, rb = ({"via": rng.choice(VIAS), "k": rng.randrange(6), "from": rng.choice(VIA_FRESH[:5])} for _ in range(2))
+            cases.append({"a": a, "b": b, "pa": ra, "pb": rb})
+        ctx.tally("eq_hash pool pairs through random paths " + c, n)
+    return cases
+
+
+# ---- follow-up 3: the extras of a term as the insertion-ordered dict they are (model: RawTerm) -------
+XVIAS = ["init", "validate", "json", "update"]
+
+
+def _term_with_items(desc, items, via):
+    import json
+    from soundevent import data
+    kw = {}
+    for f, v in desc.items():
+        if f != "extra":
+            kw[data.Term.model_fields[f].alias or f] = v
+    if via == "init":
+        return data.Term(**kw, **dict(items))
+    if via == "validate":
+        return data.Term.model_validate({**kw, **dict(items)})
+    if via == "json":
+        return data.Term.model_validate_json(json.dumps({**kw, **dict(items)}))
+    t = data.Term(**kw)
+    hash(t)
+    return t.model_copy(update=dict(items))
+
+
+def _impl_extras_eq(inp):
+    from soundevent import data
+    objs = []
+    for side in ("a", "b"):
+        d = inp[side]
+        t = _term_with_items(d["term"], [tuple(x) for x in d["items"]], d.get("via", "init"))
+        if [list(x) for x in (t.__pydantic_extra__ or {}).items()] != d["items"]:
+            return {"skip": "the extras are not kept in the order they were given"}
+        if tag_to_desc(data.Tag(term=t, value="v"))["term"] != d["term"]:
+            raise AssertionError("descriptor does not describe the constructed term")
+        objs.append(t)
+    a, b = objs
+    r = (a == b)
+    if (b == a) != r:
+        raise AssertionError("__eq__ is not symmetric")
+    ta, tb = data.Tag(term=a, value="v"), data.Tag(term=b, value="v")
+    fa, fb = data.Feature(term=a, value=2.5), data.Feature(term=b, value=2.5)
+    return {"eq": bool(r), "hash_eq": hash(a) == hash(b), **_membership(a, b), **_encoder_follows(a, b),
+            "tag": {"eq": ta == tb, "hash_eq": hash(ta) == hash(tb), **_membership(ta, tb)},
+            "feature": {"eq": fa == fb, "hash_eq": hash(fa) == hash(fb), **_membership(fa, fb)}}
+
+
+def _cmp_extras_eq(inp, io, mo):
+    if "skip" in io:
+        _SKIPPED[0] += 1
+        return None
+    if "raise" in io:
+        return "constructing / comparing the terms raised"
+    if not (mo["wf"] and mo["canon_is_sent"]):
+        return "harness: the descriptor sent is not the canonical form of the term as constructed"
+    if not (mo["py_eq"] == mo["canon_eq"] == mo["sent_eq"]):
+        return "model: dict equality of the extras differs from equality of the key-sorted items"
+    if io["eq"] != mo["py_eq"]:
+        return "Term.__eq__ differs from field equality with the extras compared as a dict (order-insensitive)"
+    if io["tag"]["eq"] != mo["py_eq"] or io["feature"]["eq"] != mo["py_eq"]:
+        return "== of the tags / features built on the two terms differs from == of the terms"
+    return None
+
+
+def _holds_extras_eq(ctx, inp, io):
+    if not isinstance(io, dict) or "eq" not in io:
+        return None
+    for what, d in (("Term", io), ("Tag on the term", io["tag"]), ("Feature on the term", io["feature"])):
+        msg = _holds_eq_hash(ctx, {}, d)
+        if msg:
+            return f"{what}: {msg} (extras given as {jkey(inp['a']['items'])} via {inp['a'].get('via')} / "\
+                   f"{jkey(inp['b']['items'])} via {inp['b'].get('via')})"
+    return None
+
+
+def _extras_cases(ctx):
+    base = {f: v for f, v in _full({"term": T0, "value": ""})["term"].items() if v is not None and f != "extra"}
+    vals = {"note": ["n", "m"], "other": ["o"], "status": ["s"]}
+    lists = []
+    for r in range(4):
+        for keys in itertools.permutations(sorted(vals), r):
+            for nv in (vals["note"] if "note" in keys else [None]):
+                lists.append([[k, (nv if k == "note" else vals[k][0])] for k in keys])
+    lists += [[["note", "o"], ["other", "n"]], [["other", "n"], ["note", "o"]]]      # the values swapped
+    cases = []
+    for i, a in enumerate(lists):
+        for j, b in enumerate(lists):
+            mk = lambda items, via: {"term": {**base, "extra": sorted(items)}, "items": items, "via": via}  # noqa: E731
+            cases.append({"a": mk(a, XVIAS[(i + j) % 4]), "b": mk(b, XVIAS[(i // 2 + 3 * j) % 4])})
+    ctx.tally("extras_eq item lists", len(lists))
+    return cases
+
+
+# two terms whose extras were supplied in given orders / ways, against the RawTerm model of Encoding.lean
+OPS["extras_eq"] = Op("extras_eq", _impl_extras_eq, compare=_cmp_extras_eq, holds=_holds_extras_eq, determined=False,
+                      to_model=lambda i: {k: {"term": i[k]["term"], "items": i[k]["items"]} for k in ("a", "b")},
+                      nontrivial=lambda i, o: isinstance(o, dict) and "eq" in o)
+
+
 # ------------------------------------------------------------------ tie 1: tables
 def _lean_strs(xs):
     return "[" + ", ".join('"%s"' % x for x in xs) + "]"
@@ -1202,6 +1575,23 @@ def _tables(ctx):
                 eq_reads.append(f)
             if h:
                 hash_reads.append(f)
+        # follow-up 3: the same content through another construction path / with the extras in another order is a
+        # pseudo-field too: a hash that tells such twins apart reads something `==` does not
+        try:
+            twins = [t for _l, t, _x in _path_contents().get(c, [])]
+        except Exception:  # noqa: BLE001
+            twins = []
+        for tree in twins:
+            ref = obtain(tree, {"via": "init"})
+            for r in _recipes(True, wide=False):
+                tw = obtain(tree, r)
+                if _strip_omit(walk(tw)) != _strip_omit(tree):
+                    continue
+                tagname = f"<path:{r['via']}/{r['k']}>"
+                if not (ref == tw) and tagname not in eq_reads:
+                    eq_reads.append(tagname)
+                if hash(ref) != hash(tw) and tagname not in hash_reads:
+                    hash_reads.append(tagname)
         row = f'(SE.Encoding.HashRow.mk "{c}" {_lean_strs(eq_reads)} {_lean_strs(hash_reads)})'
         src = (f"example : {row}.wellFormed = true := by decide\n"
                f"example (a b : SE.Encoding.Record) (h : SE.Encoding.agreeOn {_lean_strs(eq_reads)} a b) :\n"
@@ -1242,6 +1632,7 @@ def run(ctx):
     ctx.stage("prediction", _stage_prediction, ctx)
     ctx.stage("tag-equality", _stage_tag_eq, ctx)
     ctx.stage("eq-hash", _stage_eq_hash, ctx)
+    ctx.stage("construction-paths", _stage_paths, ctx)
     ctx.stage("generic-encoders", _stage_generic, ctx)
     ctx.stage("find", _stage_find, ctx)
     ctx.stage("init", _stage_init, ctx)
@@ -1302,6 +1693,21 @@ def _stage_tag_eq(ctx):
     tagsp = [{"term": t, "value": "dog"} for t in terms] + POOL
     ctx.run_cases(OPS["tag_eq"], ({"a": a, "b": b} for a in tagsp for b in tagsp))
     ctx.exhaustive["tag_eq"] = f"all ordered pairs of {len(tagsp)} tags (every Term field perturbed one at a time, extras)"
+
+
+def _stage_paths(ctx):
+    """follow-up 3: equal content through every construction path, extras in every order"""
+    ctx.run_cases(OPS["eq_hash"], _path_cases(ctx))
+    ctx.run_cases(OPS["extras_eq"], _extras_cases(ctx))
+    if _SKIPPED[0]:
+        ctx.note(f"{_SKIPPED[0]} construction-path cases skipped: the path did not reproduce the content (validation "
+                 "changed it); outside this property")
+    ctx.exhaustive["eq_hash paths"] = ("per hashable class, the base object and one whose terms carry 2-3 extra attributes: "
+                                       "all ordered pairs of construction recipes (" + ", ".join(VIAS) + "; every order of "
+                                       "the extras) for Term / Tag / Feature, every recipe against the plain constructor "
+                                       "for the uuid-hashed classes; every omitted optional field passed as None on its own")
+    ctx.exhaustive["extras_eq"] = ("all ordered pairs of 29 item lists (every ordering of every subset of 3 extra keys, two "
+                                   "values of one key, swapped values) x 4 ways of supplying them, against RawTerm.pyEq")
 
 
 def _stage_eq_hash(ctx):
@@ -1523,13 +1929,19 @@ class _Leaf:
     __str__ = __repr__ = __format__ = __int__ = __float__ = __index__ = __bytes__ = __getitem__ = _no
 
 
-def _hash_trace(cls, seed):
-    """hash(obj) for a genuine instance of `cls` whose every field is an opaque leaf"""
+def _hash_trace(cls, seed, xorder=0):
+    """hash(obj) for a genuine instance of `cls` whose every field is an opaque leaf; a class that allows extra
+    attributes also gets two of them (leaves as well), inserted in the order `xorder` names"""
     import random
     r = random.Random(seed)
     log = []
-    hs = {f: r.randrange(1, 2 ** 60) for f in cls.model_fields}
-    obj = cls.model_construct(**{f: _Leaf(f, hs[f], log) for f in cls.model_fields})
+    names = list(cls.model_fields)
+    extras = ["+xa", "+xb"] if cls.model_config.get("extra") == "allow" else []
+    hs = {f: r.randrange(1, 2 ** 60) for f in names + extras}
+    kw = {f: _Leaf(f, hs[f], log) for f in names}
+    for f in (extras if not xorder else extras[::-1]):
+        kw[f[1:]] = _Leaf(f, hs[f], log)
+    obj = cls.model_construct(**kw)
     return hash(obj), log, hs
 
 
@@ -1547,7 +1959,8 @@ def _stage_hash_trace(ctx):
             r1, log1, _ = _hash_trace(cls, 1)
             r1b, log1b, _ = _hash_trace(cls, 1)          # another instance, same field hashes
             r2, log2, _ = _hash_trace(cls, 2)            # other field hashes
-            r1c = hash(cls.model_construct(**{f: _Leaf(f, h, []) for f, h in _hash_trace(cls, 1)[2].items()}))
+            r1c = hash(cls.model_construct(**{f.lstrip("+"): _Leaf(f, h, []) for f, h in _hash_trace(cls, 1)[2].items()}))
+            r1x, log1x, _ = _hash_trace(cls, 1, xorder=1)  # the extras inserted in the other order
         except Exception as e:  # noqa: BLE001
             ctx.symbolic_ties[name] = {"error": repr(e)[:300]}
             ctx.pre_failed.append(name)
@@ -1555,12 +1968,12 @@ def _stage_hash_trace(ctx):
                      extra={"cls": c})
             continue
         heads = sorted({p.split(".")[0] for p in log1})
-        det = (r1 == r1b == r1c) and log1 == log1b == log2
+        det = (r1 == r1b == r1c == r1x) and log1 == log1b == log2 and sorted(log1) == sorted(log1x)
         sens = r1 != r2 if log1 else True
         ctx.symbolic_ties[name] = {"paths": 1, "hashed": log1}
         rows.append((c, heads))
-        declared = list(cls.model_fields)
-        src = (f"-- hash({c}) on opaque field values: hashed {log1}; same on another instance: {det}\n"
+        declared = list(cls.model_fields) + (["+xa", "+xb"] if cls.model_config.get("extra") == "allow" else [])
+        src = (f"-- hash({c}) on opaque field values: hashed {log1}; same on another instance / extras reordered: {det}\n"
                f"example : ({'true' if det else 'false'} && {'true' if sens else 'false'}) = true := by decide\n"
                f"example : (SE.Encoding.HashRow.mk \"{c}\" {_lean_strs(declared)} {_lean_strs(heads)}).wellFormed = true "
                f":= by decide")
